@@ -343,8 +343,11 @@ def generate(rng, tier, i):
                 ops.append({"op": "set_comment", "cif": src, "comment": gen_comment(rng)})
             elif r < 0.83:
                 ops.append({"op": "set_name", "cif": src, "name": gen_block_name(rng)})
-            elif r < 0.845:
+            elif r < 0.84:
                 ops.append({"op": "cif_bad_name", "cif": src, "name": rng.choice(["has space", "a\tb", "x\ny"])})
+            elif r < 0.855:
+                ops.append({"op": "with_powder_bad", "cif": src,
+                            "variant": rng.choice(["unit", "dim", "ndim", "name"])})
             else:
                 ops.append({"op": "save", "cif": src,
                             "via": rng.choice(["method", "method", "save_cif", "save_cif_comment"]),
@@ -608,8 +611,18 @@ class CifEngine(Engine):
                 mod[op["loop"]].cols.append([op["key"], col_to_vals(op["col"])])
                 if op["col"]["t"] == "s":
                     note_strings(*op["col"]["v"])
-            elif o in ("loop_set_bad", "block_bad_name", "cif_bad_name"):
-                if o == "loop_set_bad":
+            elif o in ("loop_set_bad", "block_bad_name", "cif_bad_name", "with_powder_bad"):
+                if o == "with_powder_bad":
+                    def bad():
+                        v = op["variant"]
+                        dim = "energy" if v == "dim" else "tof"
+                        coord = sc.array(dims=[dim], values=[1.0, 2.0], unit="ms" if v == "unit" else "us")
+                        data = sc.array(dims=[dim], values=[1.0, 2.0], variances=[1.0, 1.0])
+                        da = sc.DataArray(data, coords={dim: coord}, name="bogus" if v == "name" else "")
+                        if v == "ndim":
+                            da = sc.concat([da, da], "extra")
+                        lib[op["cif"]].with_reduced_powder_data(da, comment="must not appear")
+                elif o == "loop_set_bad":
                     def bad():
                         col = self._col(op["col"])
                         if op.get("two_d"):
